@@ -192,12 +192,21 @@ channel_read_map(struct channel* self, struct channel_reader* reader)
     }
 
     if (!nbytes) {
-        // If nothing is available to read, we still need to advance this
-        // reader's position & cycle bookmarks to the beginning of the queue and
-        // the writer's cycle, respectively.
+        // If nothing is left to read in the old lap, advance this reader's
+        // position & cycle bookmarks to the beginning of the queue and the
+        // writer's cycle, respectively, and map whatever the new lap already
+        // holds. Returning an empty region here would tell the caller it has
+        // drained the channel while committed data is still waiting.
         out = 0;
         *pos = 0;
         *cycle = self->cycle;
+        if (self->head > 0) {
+            out = self->data;
+            nbytes = self->head;
+            reader->pos = self->head;
+            reader->cycle = self->cycle;
+            reader->state = ChannelState_Mapped;
+        }
     } else {
         reader->state = ChannelState_Mapped;
     }
